@@ -4,7 +4,7 @@ import PharmpyModel.Generated.C18Tables
   C18 — executable model of the MFL feature algebra (PK fragment):
   tools/mfl/statement/feature/{absorption,elimination,lagtime,transits,peripherals}.py
   and `ModelFeatures` (tools/mfl/parse.py): create, create_from_mfl_statement_list,
-  __add__, __sub__, __eq__, contain_subset, least_number_of_transformations (keys),
+  __add__, __sub__, __eq__, contain_subset, least_number_of_transformations (keys), Transits.__eq__,
   convert_to_funcs (keys), _add_helper, _extract_peripherals.
 
   The model mirrors the code as it is, including the Python exceptions it raises
@@ -375,21 +375,40 @@ def subsetTransits (a b : MF) : Except Err Bool := do
   let rd ← b.transits.foldlM (fun acc t => do pure (acc ++ (← t.evalDepot))) []
   pure (rc.all (lc.contains ·) && rd.all (ld.contains ·))
 
-/-- `contain_subset(self, mfl, tool=…)`; `modelsearch = true` stands for
-    `tool is None or tool == 'modelsearch'`.  `none` is Python's `None`
-    (the function falls off its last branch). -/
-def MF.containSubset (a b : MF) (modelsearch : Bool) : Except Err (Option Bool) := do
+/-- The three ingredients of `contain_subset`, evaluated in the order of the code:
+    `(absorption ⊆ ∧ elimination ⊆ ∧ transits ∧ lagtime ⊆, DRUG peripherals ⊆, MET peripherals ⊆)`;
+    the `and` chain short-circuits. -/
+def MF.containParts (a b : MF) : Except Err (Bool × Bool × Bool) := do
   let transits ← subsetTransits a b
   let (lm, ld) ← extractPeripherals a.peripherals
   let (rm, rd) ← extractPeripherals b.peripherals
-  if !(← subsetModes absorptionKind a.absorption b.absorption) then return some false
-  if !(← subsetModes eliminationKind a.elimination b.elimination) then return some false
-  if !transits then return some false
-  if !(← subsetModes lagtimeKind a.lagtime b.lagtime) then return some false
-  if modelsearch then return some (rd.all (ld.contains ·))
-  else
-    if !(rd.all (ld.contains ·) && rm.all (lm.contains ·)) then return some false
-    else return none
+  let s ←
+    (do if !(← subsetModes absorptionKind a.absorption b.absorption) then pure false
+        else if !(← subsetModes eliminationKind a.elimination b.elimination) then pure false
+        else if !transits then pure false
+        else subsetModes lagtimeKind a.lagtime b.lagtime : Except Err Bool)
+  pure (s, rd.all (ld.contains ·), rm.all (lm.contains ·))
+
+/-- `contain_subset(self, mfl, tool=…)` on spaces without covariates; `modelsearch = true`
+    stands for `tool is None or tool == 'modelsearch'`.  Since 87505a7 every path returns a
+    `bool` (before, a tool other than modelsearch fell off the last branch: `None`). -/
+def MF.containSubset (a b : MF) (modelsearch : Bool) : Except Err Bool := do
+  let (s, drug, met) ← a.containParts b
+  if !s then pure false
+  else if modelsearch then pure drug
+  else pure (drug && met)
+
+/-- `Transits.__eq__` (since bfc9c9b a `bool`): equal count sets and equal depots, where a
+    wildcard depot only equals a wildcard. -/
+def Transits.eq (t u : Transits) : Except Err Bool := do
+  let depotEq ←
+    (match t.depot, u.depot with
+      | .wild, .wild => pure true
+      | .wild, .names _ => pure false
+      | .names _, .wild => pure false
+      | .names l, .names r => pure (setEq l r)
+      | _, _ => .error .typeError : Except Err Bool)
+  pure (setEq t.counts u.counts && depotEq)
 
 /-! ### `convert_to_funcs` (keys) and `least_number_of_transformations` (keys) -/
 
@@ -462,31 +481,33 @@ def lntTransits (a b : MF) : Except Err (List Key) := do
       | [] => pure []
   else pure []
 
-/-- `_lnt_peripherals(other, lnt, "pk")`: because the second `if` is not an `elif`,
-    `keys` is `["DRUG", "MET"]` for the subset "pk" as well. -/
-def lntPeripherals (a b : MF) : Except Err (List Key) := do
+/-- `_lnt_peripherals(other, lnt, subset)` for one key of `keys` (`met = false`: "DRUG",
+    the pk subset since e311de7; `met = true`: "MET", the metabolite subset). -/
+def lntPeripherals (a b : MF) (met : Bool) : Except Err (List Key) := do
   let (lm, ld) ← extractPeripherals a.peripherals
   let (rm, rd) ← extractPeripherals b.peripherals
   let _ ← peripheralsKeys b.peripherals
-  let drug : List Key :=
-    if !(ld.any (rd.contains ·)) then
-      (match rd with | [] => [] | c :: _ => [["PERIPHERALS", toString c]])
-    else []
-  let met : List Key :=
-    if !(lm.any (rm.contains ·)) then
-      (match rm with | [] => [] | c :: _ => [["PERIPHERALS", toString c, "METABOLITE"]])
-    else []
-  pure (drug ++ met)
+  if met then
+    pure (if !(lm.any (rm.contains ·)) then
+      (match rm with | [] => [] | c :: _ => [["PERIPHERALS", toString c, "METABOLITE"]]) else [])
+  else
+    pure (if !(ld.any (rd.contains ·)) then
+      (match rd with | [] => [] | c :: _ => [["PERIPHERALS", toString c]]) else [])
 
-/-- keys of `self.least_number_of_transformations(other, tool=None|'modelsearch')`
-    in dict order. -/
-def MF.lnt (a b : MF) : Except Err (List Key) := do
+/-- keys of `self.least_number_of_transformations(other, tool=…)` in dict order;
+    `modelsearch = true` is `tool='modelsearch'` (pk features only), `false` is `tool=None`
+    (which afterwards also looks at the metabolite peripherals; covariates, PD and metabolite
+    attributes are absent in the fragment). -/
+def MF.lnt (a b : MF) (modelsearch : Bool) : Except Err (List Key) := do
   let k1 ← lntHelper absorptionKind a.absorption b.absorption
   let k2 ← lntHelper eliminationKind a.elimination b.elimination
   let k3 ← lntTransits a b
-  let k4 ← lntPeripherals a b
+  let k4 ← lntPeripherals a b false
   let k5 ← lntHelper lagtimeKind a.lagtime b.lagtime
-  pure (k1 ++ k2 ++ k3 ++ k4 ++ k5)
+  if modelsearch then pure (k1 ++ k2 ++ k3 ++ k4 ++ k5)
+  else do
+    let k6 ← lntPeripherals a b true
+    pure (k1 ++ k2 ++ k3 ++ k4 ++ k5 ++ k6)
 
 /-! ## Spec: explicitly expanded feature atoms -/
 
